@@ -277,9 +277,38 @@ class Rewriter(Client):
 class Tuner(Client):
     name = "tuner"
 
+    def __init__(self, *a):
+        super().__init__(*a)
+        self.poisoned: list = []
+
+    def poison_value(self, role):
+        r = self.rng
+        if role == "r":
+            return r.choice([1.5, -0.5, "x"])
+        if role == "loss":
+            return r.choice([1.5, -0.2, "x"])
+        return "x"
+
     def propose(self):
         r, w, cfg = self.rng, self.w, self.cfg
         pids = list(w.pool["p"])
+        # F-poison / heal
+        if self.poisoned and r.random() < 0.45:
+            pid = self.poisoned.pop(0)
+            if w.has("p", pid):
+                p = w.pool["p"][pid]
+                v = self.valid_value(w.meta["p"][pid].get("role", "phi"),
+                                     p.min_bound, p.max_bound)
+                if v is not None:
+                    w.stats["fault:heal"] += 1
+                    return {"op": "param_set", "p": pid, "value": v,
+                            "heal": True}
+        if pids and cfg.get("faults") and r.random() < cfg.get("p_poison", 0.1):
+            pid = self.pick(pids)
+            w.stats["fault:poison"] += 1
+            self.poisoned.append(pid)
+            return {"op": "param_set", "p": pid, "poison": True,
+                    "value": self.poison_value(w.meta["p"][pid].get("role", "phi"))}
         if len(pids) < cfg["max_params"] and (len(pids) < 3 or r.random() < 0.1):
             return self.new_param()
         if not pids:
